@@ -55,10 +55,25 @@ type recEnv struct {
 	ntx      int
 }
 
-func newRecEnv(fl *drv.Flags, winFirst, winMod int64) *recEnv {
+// usersIn: the largest N with an account name uN in the behaviour.
+func usersIn(beh []chain.M) int {
+	max := 0
+	for _, ev := range beh {
+		var n int
+		if _, err := fmt.Sscanf(chain.Str(ev, "who"), "u%d", &n); err == nil && n > max && n < 50 {
+			max = n
+		}
+	}
+	return max
+}
+
+func newRecEnv(fl *drv.Flags, winFirst, winMod int64, minUsers int) *recEnv {
 	e := &recEnv{names: map[string]string{}, txName: map[string]string{}, idName: map[string]string{},
 		digestOf: map[string]string{}, winFirst: fl.CfgInt("winfirst", winFirst), winMod: fl.CfgInt("winmod", winMod)}
 	n := int(fl.CfgInt("users", 2))
+	if minUsers > n {
+		n = minUsers
+	}
 	accts := map[string]string{}
 	for i := 1; i <= n; i++ {
 		u := fmt.Sprintf("u%d", i)
@@ -293,7 +308,7 @@ func recRun(fl *drv.Flags, beh []chain.M, w *chain.TraceWriter) {
 	for _, ev := range beh {
 		hasEnd = hasEnd || chain.Str(ev, "name") == "EndBlock"
 	}
-	e := newRecEnv(fl, 1000000, 1)
+	e := newRecEnv(fl, 1000000, 1, usersIn(beh))
 	e.start(w)
 	per := int(fl.CfgInt("perblock", 2))
 	var pending []chain.M
@@ -346,7 +361,7 @@ func recordDriver(mode string, fl *drv.Flags) error {
 // one block and different blocks), 1..maxmsgs messages per transaction,
 // 0..maxtx transactions per block, rolled-back and refused transactions.
 func recRandom(fl *drv.Flags, rng *rand.Rand, w *chain.TraceWriter) {
-	e := newRecEnv(fl, 20, 10)
+	e := newRecEnv(fl, 20, 10, 0)
 	e.start(w)
 	pool := []string{"a", "b", "c", "a+b", "b+a", "L1", "L2", "L3+a"}
 	maxMsgs := int(fl.CfgInt("maxmsgs", 4))
